@@ -676,3 +676,10 @@ PROPS["C14"]["also_drivers"] = ["C10"]
 # history driver of C01 has no buffer pools, C08's driver does (its oracle: the pool stays
 # registered and allocated while a request selecting from it is in flight; seed C01-d).
 PROPS["C01"]["also_drivers"] = ["C08"]
+# The OpState family (C01, C02, C03, C06, C09) abstracts the completion queue as a FIFO that hands
+# every completion to its operation exactly once; that abstraction is C05's model and driver (a
+# change that breaks it breaks all five: seeds C02-c, C03-e). C06's "never leaked when the Ring is
+# dropped" with more final completions than completion-queue entries is C12's driver (seed C06-e).
+for _p in ("C01", "C03", "C06", "C09"):
+    PROPS[_p]["also_drivers"] = PROPS[_p].get("also_drivers", []) + ["C05"]
+PROPS["C06"]["also_drivers"] = PROPS["C06"]["also_drivers"] + ["C12"]
